@@ -6,7 +6,10 @@ import schedupper
 
 THEOREMS = {"C04.v": json.load(open(os.path.join(os.path.dirname(__file__), "_theorems.json")))["C04"],
             # concurrent half: the whole allocator under every interleaving (machine M2)
-            "Conc.v": ['Conc_quiescent_validate', 'Conc_quiescent_stats', 'Conc_quiescent_stats_with_changes', 'Conc_upper_safe', 'Conc_from_new', 'Conc_online_exclusion_necessary', 'Conc_online_race_later_free_panics']}
+            "Conc.v": ['Conc_quiescent_validate', 'Conc_quiescent_stats', 'Conc_quiescent_stats_with_changes', 'Conc_upper_safe', 'Conc_from_new', 'Conc_online_exclusion_necessary', 'Conc_online_race_later_free_panics'],
+            # Online executed while no other call is in flight is safe: phased schedules (UpperPhased.v)
+            "Phased.v": ['Conc_phased_online_safe', 'Conc_phased_online_safe_then_concurrent', 'Conc_phased_held_everywhere',
+                         'Conc_phased_ghost_unique', 'Conc_phased_validate', 'Conc_phased_stats', 'Conc_phased_instance']}
 
 
 def run(ctx):
